@@ -136,7 +136,8 @@ def handle (op : String) (req : Json) : R Json := do
       ("blocks", jList (fun (b : List Int) => jBlock (some (b.length * 8, b))) specBlocks),
       ("appended", jList jWord (appended specBlocks))]
     let okB := headOkB endian spacing (fields.map (·.name))
-    let realMeta := jOpt jMeta (vtkParse realHead)         -- the Lean reader on the real header text
+    -- the Lean reader on the real header text (null: the text is outside the subset the reader handles)
+    let realMeta := if entitiesKnown realHead then jOpt jMeta (vtkParse realHead) else .null
     match vtkRender endian spacing img with
     | none =>
       pure (jObj [("rendered", .null), ("model", jObj [("raises", jBool true)]), ("spec", specSide),
